@@ -139,6 +139,15 @@ def _run(scen, sim, final, info, hooks, scratch):
     from dst import zoo as _zoo
 
     user_hooks = hooks.get("sched_hooks") or {}
+    if hasattr(scheduler, "trials_checkpoints_can_be_removed"):
+        _orig_tccbr = scheduler.trials_checkpoints_can_be_removed
+
+        def _tccbr():
+            ret = _orig_tccbr()
+            sim.log("s.ckpt_removable", trials=[int(x) for x in ret if x is not None])
+            return ret
+
+        scheduler.trials_checkpoints_can_be_removed = probes.PW(_tccbr)
 
     def post(name, rec, ret, ev, scheduler=scheduler):
         taps(scheduler, name, rec, ret, ev)
@@ -153,10 +162,47 @@ def _run(scen, sim, final, info, hooks, scratch):
     _run_tuner(sim, scen, tuner, final, info, hooks, backend, store)
 
 
+def gp_state(scheduler):
+    """Snapshot of the surrogate model's data set (searcher.state_transformer.state, a documented attribute)."""
+    searcher = getattr(scheduler, "searcher", None)
+    stf = getattr(searcher, "state_transformer", None)
+    if stf is None:
+        inner = getattr(searcher, "_searcher_int", None) or getattr(searcher, "_searcher", None)
+        stf = getattr(inner, "state_transformer", None)
+    if stf is None:
+        return None
+    try:
+        state = stf.state
+    except Exception:
+        return None
+    from syne_tune.optimizer.schedulers.searchers.bayesopt.datatypes.common import INTERNAL_METRIC_NAME
+
+    obs = {}
+    for ev in state.trials_evaluations:
+        mv = ev.metrics.get(INTERNAL_METRIC_NAME)
+        if isinstance(mv, dict):
+            obs[str(ev.trial_id)] = {str(k): float(v) for k, v in mv.items()}
+        elif mv is not None:
+            obs[str(ev.trial_id)] = {"-": float(mv)}
+    pend = sorted([str(p.trial_id), p.resource] for p in state.pending_evaluations)
+    return {"obs": obs, "pend": pend, "failed": sorted(map(str, state.failed_trials))}
+
+
 def taps(scheduler, name, rec, ret, ev):
     """State taps named in DESIGN (trusted base): sampled bracket, PASHA resource cap."""
+    st = gp_state(scheduler)
+    if st is not None:
+        ev["gp"] = st
     term = getattr(scheduler, "terminator", None)
     if term is None:
+        br = getattr(scheduler, "_brackets", None)
+        ti = getattr(scheduler, "_trial_info", None)
+        if name == "on_trial_add" and br is not None and isinstance(ti, dict) and rec["trial"] in ti:
+            # MOASHA: bracket drawn from the global generator
+            try:
+                ev["bracket"] = [id(b) for b in br].index(id(ti[rec["trial"]]))
+            except ValueError:
+                pass
         return
     info = getattr(term, "_task_info", None)
     if info is not None:
